@@ -6,7 +6,7 @@ import hashlib
 NAMES = [
     "a", "b", "c", "ab", "a.b", "a b", "data", "data.csv", "d", "dir", "sub",
     "ü", "名", "é", "é", "Z", "_x", "a-b", "a+b", "0", "00", "x.dir",
-    "foo", "foo.txt", "bar", "baz", "A", "ä", "z",
+    "foo", "foo.txt", "bar", "baz", "A", "ä", "z", "win\\style", "b\\",
 ]  # fmt: skip
 
 DIRNAMES = ["d", "dir", "sub", "ü", "a", "b", "x.dir", "名", "A", "foo", "d e"]
